@@ -530,6 +530,8 @@ def toz(v):
         return toz(v.item())
     if v is POISON:
         raise PoisonValue("nan/inf where a number is required")
+    if hasattr(v, "to_real"):          # angle objects of the atan2 stub
+        return toz(v.to_real())
     raise TypeError("cannot convert %r to a real term" % (type(v),))
 
 
